@@ -119,7 +119,7 @@ def generate(seed: int, tier: str, phase: str) -> Dict[str, Any]:
         # conversion with hand-inserted quantisation (shapes of C16's recorded findings and
         # already unit-scaled ops are kept out of these programs)
         plan["pre_unit_scale"] = True
-        plan["opts"]["avoid"] = plan["opts"]["avoid"] + ["nn_softmax", "u_forms"]
+        plan["opts"]["avoid"] = plan["opts"]["avoid"] + ["nn_softmax", "u_forms", "sdpa_scale"]
     if phase == "known":
         if r.random() < 0.5:
             plan["ops"] = [{"op": "nn_root", "kind": r.choice(["linear", "sequential"])}]
